@@ -39,8 +39,10 @@ def isr_models(names, variant, K, ncls, reqs, sizes, seeds):
 
 def run_group(chk, variant, K, requests, sizes, seeds, gs, what_prefix="",
               driver=None):
-    """requests: [(order, block, indices, subtract_gs)]"""
+    """requests: [(order, block, indices, subtract_gs)]; indices without a
+    ',' request the matrix-vector product mvp_block_order for the bra space"""
     names = oracle.gs_names(4)
+    names.setdefault(tn.right_adc_amplitude, len(names) + 1)
     for k in range(1, len(requests) + 1):
         names[f"Ref{k}"] = len(names) + 1
     isr = IntermediateStates(gs, variant)
@@ -49,20 +51,29 @@ def run_group(chk, variant, K, requests, sizes, seeds, gs, what_prefix="",
     ncls = 1
     for k, (order, block, indices, sub) in enumerate(requests, 1):
         bs, ks = block.split(",")
-        bi, ki = indices.split(",")
+        mvp = "," not in indices
+        bi, ki = (indices, "") if mvp else indices.split(",")
         roles, inames = roles_of(bi, ki)
         ncls = max(ncls, CLS[bs], CLS[ks])
-        reqs.append({"nid": names[f"Ref{k}"], "what": "M", "order": order,
-                     "sub": bool(sub), "roles": roles, "bc": CLS[bs],
-                     "kc": CLS[ks]})
+        reqs.append({"nid": names[f"Ref{k}"], "what": "V" if mvp else "M",
+                     "order": order, "sub": bool(sub), "roles": roles,
+                     "bc": CLS[bs], "kc": CLS[ks],
+                     "yn": names[tn.right_adc_amplitude]})
         todo.append((k, order, block, indices, sub, inames))
     gm = isr_models(names, variant, K, ncls, reqs, sizes, seeds)
     refs = [(k + 1, gm[k]["noa"], gm[k]["nva"]) for k in range(len(gm))]
     first = len(chk.events)
     for (k, order, block, indices, sub, inames) in todo:
-        what = (f"SecularMatrix({variant}).isr_matrix_block({order}, '{block}',"
-                f" '{indices}', subtract_gs={sub})")
-        res, exc = guarded(m.isr_matrix_block, order, block, indices, sub)
+        if "," not in indices:
+            what = (f"SecularMatrix({variant}).mvp_block_order({order}, "
+                    f"'{block.split(',')[0]}', '{block}', '{indices}', "
+                    f"subtract_gs={sub})")
+            res, exc = guarded(m.mvp_block_order, order, block.split(",")[0],
+                               block, indices, sub)
+        else:
+            what = (f"SecularMatrix({variant}).isr_matrix_block({order}, "
+                    f"'{block}', '{indices}', subtract_gs={sub})")
+            res, exc = guarded(m.isr_matrix_block, order, block, indices, sub)
         chk.count("derivations")
         if exc:
             chk.report_direct(f"isr:{variant}:{block}:{order}:exception",
@@ -97,13 +108,20 @@ def run(chk):
           (2, "ph,ph", "ia,jb", True), (1, "ph,pphh", "ia,jkbc", True),
           (1, "pphh,ph", "ijab,kc", True), (0, "pphh,pphh", "ijab,klcd", True),
           (1, "pphh,pphh", "ijab,klcd", True), (2, "ph,ph", "ia,jb", False),
-          (0, "ph,pphh", "ia,jkbc", True)]
+          (0, "ph,pphh", "ia,jkbc", True),
+          # matrix-vector products
+          (1, "ph,ph", "ia", True), (2, "ph,ph", "ia", True),
+          (1, "ph,pphh", "ia", True), (1, "pphh,ph", "ijab", True),
+          (0, "pphh,pphh", "ijab", True)]
     ip = [(0, "h,h", "i,j", True), (1, "h,h", "i,j", True),
           (2, "h,h", "i,j", True), (1, "h,phh", "i,jka", True),
-          (0, "phh,phh", "ija,klb", True), (1, "phh,h", "ija,k", True)]
+          (0, "phh,phh", "ija,klb", True), (1, "phh,h", "ija,k", True),
+          (1, "h,phh", "i", True), (1, "phh,h", "ija", True),
+          (2, "h,h", "i", True)]
     ea = [(0, "p,p", "a,b", True), (1, "p,p", "a,b", True),
           (2, "p,p", "a,b", True), (1, "p,pph", "a,ibc", True),
-          (0, "pph,pph", "iab,jcd", True)]
+          (0, "pph,pph", "iab,jcd", True), (1, "p,pph", "a", True),
+          (1, "pph,p", "iab", True)]
     if not quick:
         pp += [(2, "ph,pphh", "ia,jkbc", True), (2, "pphh,ph", "ijab,kc", True),
                (1, "pphh,pphh", "ijab,klcd", False), (3, "ph,ph", "ia,jb", True)]
